@@ -91,7 +91,7 @@ type c17SynthCase struct {
 
 func runC17Synth(id string, bits int) {
 	c := &c17SynthCase{Synth: true, Bits: bits}
-	defer recoverCase(id, c)
+	defer watchCase(id, c)()
 	var defd []string
 	for i, s := range c17Sections {
 		if bits&(1<<i) != 0 {
